@@ -76,7 +76,9 @@ fn parse_exponent(data: &[u8], index: &mut usize) -> Result<i32, Error> {
     }
 
     check_digit!(data, *index);
-    while exponent < 1000 && is_digit!(data, *index) {
+    // same bound as the decimal scanner of the slow path: the exponent is later corrected by the
+    // number of mantissa digits, so it has to stay exact well beyond the range of f64
+    while exponent < 0x10000 && is_digit!(data, *index) {
         exponent = digit!(data, *index) as i32 + exponent * 10;
         *index += 1;
     }
